@@ -144,7 +144,9 @@ func OHealthExact(w *World) error {
 	}
 	wk := base.DoWalk()
 	if len(wk.Broken) > 0 {
-		return fmt.Errorf("harness: healthy state has broken references: %s", wk.Broken[0])
+		// the history is valid and its storage was committed: a broken reference here is the library's doing, and
+		// no health check can succeed on this storage ("succeeds on every storage produced by valid histories")
+		return violf("the storage committed by this valid history is not healthy: %s", wk.Broken[0])
 	}
 	children := map[atree.SlabID][]atree.SlabID{}
 	for _, r := range wk.Recs {
